@@ -419,5 +419,5 @@ SUBCHECKS = [
                   "short_tip:removes": 20, "permuted": 200,
                   "mapping:container-reused-from-an-earlier-call": 30, "mapping:container-prefilled": 30,
                   "transform-object-reused": 100, "removals-as:generator": 6, "removals-as:iter": 10, "removals-as:chain": 10, "removals-as:ndarray": 10,
-                  "callback-state:int-offset": 100, "callback-state:markers": 62, "transform-object-used-after-an-aborted-call": 40}),
+                  "callback-state:int-offset": 55, "callback-state:markers": 62, "transform-object-used-after-an-aborted-call": 40}),
 ]
